@@ -597,6 +597,21 @@ pub fn generate(seed: u64, case: u64, max_steps: usize) -> Ran {
                 continue;
             }
         }
+        // a permission probe: one subkey gets a random combination of the four flags and tries each kind of staking /
+        // distribution message on its own (each preceded by the CanExecute query)
+        if subkeys && !cur.admins.is_empty() && cur.admins[0] < n && r.chance(1, 20) {
+            let adm = cur.admins[0];
+            let others: Vec<usize> = (0..n).filter(|u| *u != adm && !cur.admins.contains(u)).collect();
+            if !others.is_empty() {
+                let g = *r.pick(&others);
+                let p = Perm { d: r.chance(1, 2), r: r.chance(1, 2), u: r.chance(1, 2), w: r.chance(1, 2) };
+                pending.push_back(Step { h, t, s: adm, op: Op::SetPerm { sp: Arg::Id(g), p } });
+                for m in [CMsg::Delegate, CMsg::Undelegate, CMsg::Redelegate, CMsg::SetWithdraw, CMsg::Withdraw] {
+                    pending.push_back(Step { h, t, s: g, op: Op::Execute { msgs: vec![m] } });
+                }
+                continue;
+            }
+        }
         // a grant used through mixed batches: a permitted distribution / staking message first, then the bank send, twice,
         // with amounts that fit once but not twice
         if subkeys && !cur.admins.is_empty() && cur.admins[0] < n && r.chance(1, 20) {
